@@ -180,7 +180,9 @@ Proof.
       unfold do_start_task. cbv zeta. simpl.
       destruct (Nat.leb (length (tasks s)) tid) eqn:El.
       * intros _. exists (IStartTask tid f' r' x'). split; [left; reflexivity|]. apply Nat.leb_le. exact El.
-      * destruct f; [destruct (is_idle _)|destruct (state_eqb _ SUCCESS)]; discriminate.
+      * destruct f; [destruct (is_idle _); discriminate|].
+        destruct (negb _ && negb _); [discriminate|]. destruct (negb _); [discriminate|].
+        destruct (state_eqb _ SUCCESS); discriminate.
     + discriminate.
     + destruct i as [?|?|aid' res'|?|?]; simpl in Hit; try discriminate.
       apply andb_true_iff in Hit. destruct Hit as [Hit _]. apply Nat.eqb_eq in Hit. subst aid'.
@@ -213,7 +215,9 @@ Proof.
     + unfold do_start_task. cbv zeta.
       destruct (Nat.leb (length (tasks s)) tid) eqn:El.
       * intros _. exists (IStartTask tid f r x). split; [right; reflexivity|]. apply Nat.leb_le. exact El.
-      * destruct f; [destruct (is_idle _)|destruct (state_eqb _ SUCCESS)]; discriminate.
+      * destruct f; [destruct (is_idle _); discriminate|].
+        destruct (negb _ && negb _); [discriminate|]. destruct (negb _); [discriminate|].
+        destruct (state_eqb _ SUCCESS); discriminate.
     + unfold do_result. cbv zeta.
       destruct (Nat.leb (length (acts s)) aid) eqn:El.
       * intros _. exists (IResult aid res). split; [right; reflexivity|]. left. apply Nat.leb_le. exact El.
@@ -243,9 +247,19 @@ Qed.
 
 (* a rerun start message for a task that has SUCCEEDED is refused with a declared error and
    changes nothing (the engine raises "Rerunning succeeded tasks is not supported") *)
-Theorem start_existing_refused_on_success_task sp s tid rerun reset :
+Theorem start_existing_refused_on_success_task sp s tid reset :
   tid < length (tasks s) -> t_state (get_task s tid) = SUCCESS ->
-  do_start_task sp s tid false rerun reset = (s, Declared).
+  do_start_task sp s tid false true reset = (s, Declared).
+Proof.
+  intros Hl Hs. unfold do_start_task. cbv zeta.
+  assert (E : Nat.leb (length (tasks s)) tid = false) by (apply Nat.leb_gt; exact Hl).
+  rewrite E, Hs. reflexivity.
+Qed.
+
+(* a resume-issued start request (not a rerun) for a task that has started meanwhile is ignored *)
+Theorem stale_resume_start_ignored sp s tid reset :
+  tid < length (tasks s) -> is_idle (t_state (get_task s tid)) = false ->
+  do_start_task sp s tid false false reset = (s, Ok).
 Proof.
   intros Hl Hs. unfold do_start_task. cbv zeta.
   assert (E : Nat.leb (length (tasks s)) tid = false) by (apply Nat.leb_gt; exact Hl).
